@@ -310,7 +310,7 @@ func ruleR10(c *Ctx) {
 		checkBody(u.Body, map[*types.Var][2]int64{})
 	}
 	c.r.note("R10: %d array indexes by constant-range induction variables", n)
-	c.r.floor("R10", 20, "constant-range array indexes", "C10")
+	c.r.floor("R10", 15, "constant-range array indexes", "C10")
 }
 
 func assignedInBody(info *types.Info, body ast.Node, v *types.Var) bool {
